@@ -33,6 +33,9 @@ type StreamEv struct {
 	Bz      string `json:"bz,omitempty"`
 	Digest  string `json:"digest,omitempty"`
 	Genesis string `json:"genesis,omitempty"`
+	// replica A (the recording run) held a non-zero process-level variable at this point: left by a failed staking
+	// transaction or by one of ITS gas simulations, which are not consensus input and so are not in the stream
+	Res bool `json:"res,omitempty"`
 }
 
 func digestTx(r abci.ResponseDeliverTx) string {
@@ -100,6 +103,9 @@ func replayStream(path string, seed int64, restartEvery int) ReplaySummary {
 		var ev StreamEv
 		if err := json.Unmarshal(sc.Bytes(), &ev); err != nil {
 			panic(err)
+		}
+		if ev.Res {
+			sum.ResidueSeen++
 		}
 		switch ev.K {
 		case "genesis":
